@@ -61,10 +61,14 @@ class Harness:
     def tiers(self):
         return (self.get("tiers", "quick,thorough")).split(",")
 
+    def tiers_for(self, prop):
+        """`tiers_C02=thorough` overrides `tiers=` for one property (a shared harness can be quick for C01 only)."""
+        return (self.get("tiers_" + prop, self.get("tiers", "quick,thorough"))).split(",")
+
 
 META_RE = re.compile(r"^\s*//\s*@verif\s+(.*)$")
 FN_RE = re.compile(r"^\s*(?:(?:pub\s+)?fn\s+([A-Za-z0-9_]+)\s*\(|[a-z_0-9]+!\(\s*([A-Za-z0-9_]+)\s*,)")
-KV_RE = re.compile(r"([a-z_]+)=((?:\"[^\"]*\")|(?:\S+))")
+KV_RE = re.compile(r"([A-Za-z0-9_]+)=((?:\"[^\"]*\")|(?:\S+))")
 LONG_KEYS = ("bound", "assume", "stub", "fns", "outside", "what")
 
 
@@ -680,7 +684,7 @@ def main(argv):
     ap.add_argument("prop", nargs="?")
     ap.add_argument("--tier", default=os.environ.get("VERIF_TIER", "quick"))
     ap.add_argument("--only", default=None)
-    ap.add_argument("--jobs", type=int, default=int(os.environ.get("VERIF_JOBS", "8")))
+    ap.add_argument("--jobs", type=int, default=int(os.environ.get("VERIF_JOBS", "12")))
     ap.add_argument("--replay", default=None)
     ap.add_argument("--list", action="store_true")
     ap.add_argument("--no-replay", action="store_true")
@@ -705,7 +709,7 @@ def main(argv):
         ap.error("property id required")
     tier = args.tier if args.tier in ("quick", "thorough") else "quick"
     CURRENT_PROP[0] = prop
-    sel = [h for h in harnesses if prop in h.props and tier in h.tiers]
+    sel = [h for h in harnesses if prop in h.props and tier in h.tiers_for(prop)]
     if args.only:
         sel = [h for h in sel if args.only in h.name]
     t0 = time.time()
